@@ -5,6 +5,7 @@ cd /verif
 miss=0
 for d in seeded/${1:-s*}; do
   [ -f $d/meta.json ] || continue
+  grep -q '"status": "obsolete' $d/meta.json && { echo "$(basename $d): obsolete, skipped"; continue; }
   ids=$(python3 -c "
 import json,re;m=json.load(open('$d/meta.json'));print(' '.join(sorted(set(re.findall(r'C\d\d',m['caught_by'])))))")
   out=$(tools/eval_seed.sh $d $ids 2>&1)
